@@ -198,6 +198,62 @@ pub fn render(q: &J, lang: &str) -> Option<String> {
     Some(s)
 }
 
+/// Gremlin rendering of the part of the core both languages share: a path of typed / directed hops with labels and a
+/// conjunction of property comparisons, returning the number of bindings, the (bag of) last node ids, or the distinct
+/// last node ids. Returns the abstract query that the text means (for the oracle) and the text.
+pub fn render_gremlin(q: &J, variant: usize) -> Option<(J, String)> {
+    fn conj<'a>(e: &'a J, out: &mut Vec<&'a J>) -> bool {
+        match e["op"].as_str().unwrap_or("") {
+            "true" => true,
+            "and" => conj(&e["a"], out) && conj(&e["b"], out),
+            "cmp" => { if e["a"]["op"] == "prop" && e["b"]["op"] == "const" { out.push(e); true } else { false } }
+            _ => false,
+        }
+    }
+    let mut cmps = vec![];
+    if !conj(&q["where"], &mut cmps) { return None; }
+    let has = |var: &str| -> Option<String> {
+        let mut s = String::new();
+        for c in cmps.iter().filter(|c| c["a"]["var"] == var) {
+            let v = match c["b"]["v"]["t"].as_str()? { "int" => c["b"]["v"]["v"].to_string(), "str" => format!("'{}'", c["b"]["v"]["v"].as_str()?), _ => return None };
+            let key = c["a"]["key"].as_str()?;
+            s += &match c["f"].as_str()? { "=" => format!(".has('{key}', {v})"), "<>" => format!(".has('{key}', neq({v}))"), "<" => format!(".has('{key}', lt({v}))"), "<=" => format!(".has('{key}', lte({v}))"), ">" => format!(".has('{key}', gt({v}))"), _ => format!(".has('{key}', gte({v}))") };
+        }
+        Some(s)
+    };
+    let path = q["path"].as_array()?;
+    let mut s = String::from("g.V()");
+    for (i, p) in path.iter().enumerate() {
+        let var = p["var"].as_str()?;
+        if i % 2 == 0 {
+            for l in p["labels"].as_array()? { s += &format!(".hasLabel('{}')", l.as_str()?); }
+            s += &has(var)?;
+        } else {
+            let t = p["types"].as_array()?.first().map(|t| format!("'{}'", t.as_str().unwrap())).unwrap_or_default();
+            let h = has(var)?;
+            let dir = p["dir"].as_str()?;
+            if h.is_empty() { s += &format!(".{}({t})", match dir { "out" => "out", "in" => "in", _ => "both" }); }
+            else { s += &format!(".{}({t}){h}.{}()", match dir { "out" => "outE", "in" => "inE", _ => "bothE" }, match dir { "out" => "inV", "in" => "outV", _ => "otherV" }); }
+        }
+    }
+    let last = path.last()?["var"].as_str()?;
+    let mut q2 = json!({"path": q["path"], "where": q["where"], "distinct": false, "order": [], "skip": 0, "limit": -1});
+    match variant % 3 {
+        0 => { s += ".count()"; q2["ret"] = json!([{"agg": "count", "e": {"op": "id", "var": last}}]); }
+        1 => { s += ".id()"; q2["ret"] = json!([{"e": {"op": "id", "var": last}}]); }
+        _ => { s += ".dedup().id()"; q2["distinct"] = json!(true); q2["ret"] = json!([{"e": {"op": "id", "var": last}}]); }
+    }
+    Some((q2, s))
+}
+
+pub fn exec_gremlin_case(g: &Graph, q: &J, variant: usize, cid: usize, out: &mut Out) {
+    let Some((q2, text)) = render_gremlin(q, variant) else { return };
+    let sess = g.db.session();
+    let r = crate::util::catch(std::panic::AssertUnwindSafe(|| sess.execute_gremlin(&text)));
+    let res = match r { Ok(Ok(res)) => Ok(res.rows), Ok(Err(e)) => Err(e.to_string()), Err(p) => Err(format!("panic {p}")) };
+    emit_case(out, cid, "gremlin", &text, &g.json, &q2, json!({}), res);
+}
+
 pub fn exec_case(g: &Graph, q: &J, lang: &str, cid: usize, out: &mut Out, extra: J) {
     let Some(text) = render(q, lang) else { return };
     let sess = g.db.session();
@@ -340,6 +396,10 @@ pub fn main(o: &Opts) -> i32 {
                             }
                         }
                         exec_case(&g, &q, lang, cid, &mut out, json!({}));
+                    }
+                    if o.flag("gremlin") {
+                        cid += 1;
+                        exec_gremlin_case(&g, &q, cid, cid, &mut out);
                     }
                 }
             }
